@@ -3,9 +3,31 @@
 #define REC_H
 #include "cbor.h"
 #include "vf.h"
-enum { S_NONE = 0, S_UINT8, S_UINT16, S_UINT32, S_UINT64, S_NEGINT8, S_NEGINT16, S_NEGINT32, S_NEGINT64,
-       S_BS, S_BS_START, S_STR, S_STR_START, S_ARR, S_IARR, S_MAP, S_IMAP, S_TAG, S_F2, S_F4, S_F8,
-       S_UNDEF, S_NULL, S_BOOL, S_BREAK };
+#define S_NONE 0
+#define S_UINT8 1
+#define S_UINT16 2
+#define S_UINT32 3
+#define S_UINT64 4
+#define S_NEGINT8 5
+#define S_NEGINT16 6
+#define S_NEGINT32 7
+#define S_NEGINT64 8
+#define S_BS 9
+#define S_BS_START 10
+#define S_STR 11
+#define S_STR_START 12
+#define S_ARR 13
+#define S_IARR 14
+#define S_MAP 15
+#define S_IMAP 16
+#define S_TAG 17
+#define S_F2 18
+#define S_F4 19
+#define S_F8 20
+#define S_UNDEF 21
+#define S_NULL 22
+#define S_BOOL 23
+#define S_BREAK 24
 struct rec { int slot; int calls; uint64_t a; const unsigned char* p; uint64_t len; void* ctx; };
 #ifndef NREC
 #define NREC 2
